@@ -26,6 +26,16 @@ team   : (wave 3) WHO runs the iterations: the translator also emits, for every 
          contexts: the routine called from INSIDE a `#pragma omp parallel num_threads(3)` region of the harness (each outer
          thread on its own data set; nested parallelism off and on), omp_set_dynamic(1) with more threads than processors,
          and a second invocation under OMP_THREAD_LIMIT=2 OMP_NUM_THREADS=4; every result must be the serial one.
+sizes  : (wave 4) a rejected region WITH a region-level driver whose small witness cases show nothing: the translator lists the
+         numeric constants of the enclosing function that can act as size thresholds (integer literals, 1 << 22, reserve caps);
+         for each, problem sizes on BOTH sides of it are chosen for the flagged routine itself (weight-matrix regions: k*k*N,
+         k*N or N across the constant with window neighbourhoods, N up to 60000; dense regions: N, N*N, landmarks) and run
+         (a) under the clang/libomp ThreadSanitizer+Archer build WITHOUT ignore_noninstrumented_modules (reports are kept only
+         when both stacks are in tapkee code), (b) under ASan with 16 / 8 threads against the single-threaded result, one
+         evaluation of the callback being slow once (an iteration in flight for a long time).  The translator also NAMES the
+         pattern "write through an iterator / pointer into a shared container obtained under the lock, used after it, while
+         other iterations resize the container" (access kind AEscape, never accepted: check_shared_no_escape;
+         Par_Claim_Model / Par_Claim_Proof: safe iff the capacity was reserved in full).
 always : besides the generated cases, five-combination runs of large cases (triangulate with 3000 landmarks,
          Barnes-Hut and exact t-SNE — a sentinel region: no OpenMP there on the pinned tree); thorough tier:
          tapkee::embed of 8 methods + t-SNE (N = 1200) + Landmark MDS with 3036 landmarks + Landmark Isomap.
@@ -817,18 +827,159 @@ TSAN_ENV = {"TSAN_OPTIONS": "ignore_noninstrumented_modules=1:halt_on_error=0:re
             "OMP_TOOL_LIBRARIES": "/usr/lib/llvm-14/lib/libarcher.so", "ARCHER_OPTIONS": "verbose=0"}
 
 
-def tsan_races(ctx, texe, cases, combos):
+# wave 4: the same without ignore_noninstrumented_modules — with that option TSan drops every report one of whose stacks
+# has its innermost frame in a module that is not instrumented, and ignores the memory accesses of the interceptors called from
+# there; the copy a reallocating std::vector makes (memcpy / operator delete reached from resize() under the lock) is exactly such
+# an access.  Without it libomp's own mutexes give false reports: a report counts only when BOTH access stacks reach tapkee code
+# before any frame of the OpenMP runtime.
+TSAN_ENV_STRICT = dict(TSAN_ENV, TSAN_OPTIONS="halt_on_error=0:report_signal_unsafe=0:exitcode=0:history_size=4")
+_TAPKEE_FRAME = re.compile(r"include/tapkee/|tapkee::|cli/util\.hpp")
+_RUNTIME_FRAME = re.compile(r"libomp|libarcher|libgomp|pthread_mutex|pthread_cond|__kmp")
+
+
+def _race_in_tapkee(blk, strict):
+    if "data race" not in blk and "heap-use-after-free" not in blk:
+        return False
+    if not strict:
+        return "tapkee" in blk or "util.hpp" in blk
+    stacks = []
+    for part in re.split(r"\n[ \t]*\n", blk):
+        lines = [l for l in part.splitlines() if l.strip()]
+        while lines and not re.match(r"\s*(Read|Write|Atomic|Previous)\b", lines[0]):
+            lines = lines[1:]       # the first stack follows the WARNING line without a blank line
+        if lines:
+            stacks.append([l for l in lines[1:] if re.match(r"\s*#\d+ ", l)])
+    if len(stacks) < 2:
+        return False
+    for st in stacks[:2]:
+        hit = next((q for q, l in enumerate(st) if _TAPKEE_FRAME.search(l)), None)
+        if hit is None or any(_RUNTIME_FRAME.search(l) for l in st[:hit]):
+            return False
+    return True
+
+
+def tsan_races(ctx, texe, cases, combos, strict=False, timeout=600):
     """list of (case, report excerpt) for data races reported inside tapkee code"""
     out = []
     for c in cases:
         inp = "COMBOS " + " ".join(combos) + "\n" + case_line(c)
-        r = ctx.run(texe, inp, timeout=600, env=TSAN_ENV)
+        r = ctx.run(texe, inp, timeout=timeout, env=TSAN_ENV_STRICT if strict else TSAN_ENV)
         for blk in r.err.split("==================")[1:]:
-            if "data race" in blk and ("tapkee" in blk or "util.hpp" in blk):
-                lines = [l.strip() for l in blk.splitlines() if "tapkee" in l or "util.hpp" in l or "data race" in l]
-                out.append((c, " | ".join(lines[:6])[:900]))
+            if _race_in_tapkee(blk, strict):
+                lines = [l.strip() for l in blk.splitlines() if _TAPKEE_FRAME.search(l) or "util.hpp" in l or "data race" in l
+                         or "use-after-free" in l or re.match(r"\s*(Read|Write|Previous|Atomic)\b", l)]
+                lines = [re.sub(r"\s*\(BuildId: \w+\)|\s*\(c15tsan\S*\)", "", l) for l in lines]
+                lines = [re.sub(r"^(#\d+) .*?(/include/tapkee/\S+|cli/util\.hpp\S*).*$", r"\1 \2", l) for l in lines]
+                out.append((c, " | ".join(lines[:7])[:900]))
                 break
     return out
+
+
+THRESHOLD_COMBOS = ["1:1:0", "16:1:0", "8:2:1"]
+THRESHOLD_SIDES = (("below", 0.3), ("above", 1.2))
+WEIGHT_N_CAP, WEIGHT_COST_CAP, DENSE_N_CAP = 60000, 8 * 10 ** 6, 3000
+
+
+def shapes_across(region, target):
+    """[(measure, N, k, d, L)]: problem shapes of the region-level driver in which the natural size measures of the region
+    (what its containers hold) equal `target`; the cheapest shape per measure (cost of a weight-matrix case ~ k*k*N)"""
+    out = []
+    if region in SPARSE:
+        for measure, p, ks in (("k*k*N", 2, (30, 20, 16, 12)), ("k*N", 1, (8, 12, 16, 20, 30)), ("N", 0, (8, 12, 16, 20, 30))):
+            for k in ks:
+                N = -(-int(target) // (k ** p))
+                if k + 8 <= N <= WEIGHT_N_CAP and k * k * N <= WEIGHT_COST_CAP:
+                    out.append((measure, N, k, 2, 4))
+                    break
+    else:
+        N = int(target)
+        if 8 <= N <= DENSE_N_CAP:
+            out.append(("N", N, 10, 2, max(1, N // 2)))
+        N2 = int(round(float(target) ** 0.5)) + 1
+        if 8 <= N2 <= DENSE_N_CAP and N2 != N:
+            out.append(("N*N", N2, 10, 2, max(1, N2 // 2)))
+        if region in ("tri", "mdsl", "isol"):
+            L = int(target)
+            N3 = L + L // 10 + 2
+            if 8 <= L and N3 <= DENSE_N_CAP + 400:
+                out.append(("landmarks", N3, 10, 2, L))
+    return out
+
+
+def threshold_cases(ctx, name, desc):
+    """wave 4: cases of the region-level driver on both sides of every numeric constant of the flagged function.
+    Returns (cases, text)."""
+    regs = []
+    for frag, rs in REGION_OF_FUNC.items():
+        if frag in name:
+            regs = rs
+    consts = [c for c in (desc.get("func_consts") or []) if c[0] >= 1024][-4:]
+    cases, seen, told = [], set(), []
+    for region in regs:
+        for val, text, line in consts:
+            for side, factor in THRESHOLD_SIDES:
+                for measure, N, k, d, L in shapes_across(region, val * factor):
+                    key = (region, N, k, d, L)
+                    if key in seen:
+                        continue
+                    seen.add(key)
+                    cases.append({"kind": "run", "id": 9600 + len(cases), "region": region, "N": N, "k": k, "d": d, "L": L,
+                                  "dim": 3, "seed": 4242 + N, "int": 0,
+                                  "threshold": {"constant": text, "value": val, "line": line, "measure": measure, "side": side,
+                                                "measure_value": int(val * factor)}})
+            told.append("%s = %d (line %d)" % (text, val, line))
+    return cases, "size constants of %s(): %s" % (desc.get("func"), ", ".join(sorted(set(told))) or "none")
+
+
+def _tcase_text(c):
+    t = c.get("threshold", {})
+    return "%s with %s = %.3g (N=%d, k=%d), %s the constant %s" % (c["region"], t.get("measure"), t.get("measure_value", 0), c["N"],
+                                                                   c["k"], t.get("side"), t.get("constant"))
+
+
+def threshold_search(ctx, exe, texe, rg, desc, why, stats):
+    """the footprint analysis flags an access it cannot bound and the small witness cases behave: go after the sizes at which
+    the flagged function changes behaviour.  Returns True when a violation with a concrete replay was recorded."""
+    cases, how = threshold_cases(ctx, rg["name"], desc)
+    if not cases:
+        ctx.note("threshold search (%s): %s — no case of the region-level driver reaches across a constant" % (rg["name"], how))
+        return False
+    ctx.note("threshold search (%s): %s; %d case(s): %s" % (rg["name"], how, len(cases), "; ".join(_tcase_text(c) for c in cases)))
+    stats["threshold_cases"] = stats.get("threshold_cases", 0) + len(cases)
+    found = []
+    quiet = []
+    # (a) happens-before race detection: sees the race whatever the timing
+    texe = texe or tsan_build(ctx)
+    if texe:
+        for c in cases:
+            races = tsan_races(ctx, texe, [c], ["4:1:0"], strict=True, timeout=900)
+            stats["tsan_search_runs"] = stats.get("tsan_search_runs", 0) + 1
+            if races:
+                found.append((dict(c, combos=["4:1:0"], tsan=True, tsan_strict=True),
+                              "%s: ThreadSanitizer+Archer (clang/libomp build, 4 threads): %s" % (_tcase_text(c), races[0][1])))
+            else:
+                quiet.append("%s: no race reported" % _tcase_text(c))
+    # (b) differential runs under ASan with many threads; one callback evaluation is slow once in the big cases
+    res = run_cases(ctx, exe, cases, THRESHOLD_COMBOS, timeout=900)
+    before = len(ctx._violations)
+    stats["search_runs"] = stats.get("search_runs", 0) + judge(ctx, cases, res, THRESHOLD_COMBOS, stats)
+    failed_ids = set()
+    for v in ctx._violations[before:]:
+        cid = v[0].get("id") if isinstance(v[0], dict) else None
+        failed_ids.add(cid)
+        c = next((x for x in cases if x["id"] == cid), None)
+        found.append((None, "%s: %s" % (_tcase_text(c) if c else "?", str(v[1])[:500])))
+    quiet += ["%s: every thread count gives the single-threaded result" % _tcase_text(c) for c in cases
+              if c["id"] not in failed_ids and res[c["id"]]["ended"]]
+    if not found:
+        ctx.note("threshold search (%s): nothing found — %s" % (rg["name"], "; ".join(quiet)[:600]))
+        return False
+    first_case = next((f[0] for f in found if f[0] is not None), None) or ctx._violations[before][0]
+    text = (why + " — confirmed by the threshold search (" + how + "): " + " || ".join(f[1] for f in found[:2])
+            + ((" || on the other side of the constant: " + "; ".join(quiet[:3])) if quiet else ""))
+    if ctx.violation(first_case, text[:1900]):
+        ctx._violations.insert(0, ctx._violations.pop())        # the explanation first (vlib prints the first five)
+    return True
 
 
 def witness_cases(ctx, name, quick, desc=None):
@@ -932,6 +1083,13 @@ def search(ctx, exe, det, tr, stats):
                 why = ("%s: shared container `%s` is appended to outside any critical section (line %d): every two "
                        "iterations, e.g. %d and %d on different threads, race on it" % (
                            rg["name"], w["var"], uncrit_append[0]["line"], w["i"], w["i2"]))
+            elif [a for a in accs if a["kind"] == "AEscape"]:
+                esc = [a for a in accs if a["kind"] == "AEscape"][0]
+                why = ("%s: %s (line %d) — every iteration that is between obtaining the iterator and its last write when another "
+                       "iteration makes the container grow writes into the freed buffer, and the reallocating copy reads cells that "
+                       "are being written: a data race and lost / corrupted elements as soon as the container outgrows its capacity "
+                       "(model: c15_claim_fill_capped_refuted; safe only if the full size was reserved: c15_claim_fill_reserved)" % (
+                           rg["name"], esc["what"], esc["line"]))
             elif opaque:
                 why = ("%s: access to shared `%s` that the footprint analysis cannot bound (%s, line %d)" % (
                     rg["name"], w["var"], opaque[0]["what"], opaque[0]["line"]))
@@ -971,6 +1129,11 @@ def search(ctx, exe, det, tr, stats):
                     stats["tsan_search_runs"] = stats.get("tsan_search_runs", 0) + 1
                     if races:
                         observed = "ThreadSanitizer+Archer: " + races[0][1]
+        if observed is None and cases and why is not None and not definite:
+            # wave 4: the small cases behave — go after the sizes at which the flagged function changes behaviour
+            if threshold_search(ctx, exe, texe, rg, desc, why, stats):
+                found = True
+                continue
         if observed is not None and why is not None:
             # the violation recorded by judge() (if any) already carries the failing input; add the explanation
             if not ctx.has_violation() or "ThreadSanitizer" in observed:
@@ -1232,7 +1395,7 @@ def replay(ctx, case):
     if case.get("tsan"):
         texe = tsan_build(ctx)
         if texe:
-            for cc, rep in tsan_races(ctx, texe, [c], combos):
+            for cc, rep in tsan_races(ctx, texe, [c], combos, strict=bool(case.get("tsan_strict"))):
                 print("TSAN: " + rep)
                 ctx.violation(c, rep)
     if ctx.has_violation():
